@@ -14,8 +14,8 @@ from harness.tlc import MachineryError
 
 CONDS = [["healthy"], ["down", 0], ["down", 1], ["blackhole", 0], ["blackhole", 1], ["failover", 1, 1], ["failover", 1, 0],
          ["alldown"], ["allblack"]]
-WORKLOADS = ["group", "group-static", "group-noauto", "assign", "assign-group", "producer", "idem", "txn"]
-CFG = {"group": "consumer", "group-static": "static", "group-noauto": "consumer", "assign": "assign", "assign-group": "consumer",
+WORKLOADS = ["group", "group-static", "group-noauto", "group-follower", "assign", "assign-group", "producer", "idem", "txn"]
+CFG = {"group": "consumer", "group-static": "static", "group-noauto": "consumer", "group-follower": "consumer", "assign": "assign", "assign-group": "consumer",
        "producer": "producer", "idem": "producer", "txn": "producer"}
 
 
@@ -92,6 +92,9 @@ def base_scenario(rng, wl):
     w = wl.split("-")[0]
     sc = dict(seed=rng.randrange(10**6), workload=w, wl=wl, nnodes=2, nparts=2, stop_at=None, baseline_len=rng.choice([0.9, 1.3]),
               other=(rng.choice([0.25, 0.5]) if w == "group" else None), linger_ms=rng.choice([0, 5, 20]))
+    if wl == "group-follower":
+        sc["other_first"] = True
+        sc["other"] = None
     if wl == "group-static":
         sc["static"] = True
     if wl == "group-noauto":
@@ -140,6 +143,8 @@ def gen_scenarios(rng, *, per_workload, every):
                 scs.append(dict(b, stop_at=t, cond=["fence"], lead=rng.choice([0.05, 0.3, 0.6])))
             if b["workload"] == "group":
                 scs.append(dict(b, stop_at=t, cond=["groupauth"], lead=rng.choice([0.1, 0.4, 0.8])))
+            if b["wl"] == "group-follower":
+                scs.append(dict(b, stop_at=t, cond=["syncstall"], lead=rng.choice([0.6, 1.0, 1.5, 2.2])))
     return scs, npoints
 
 
